@@ -244,6 +244,27 @@ def run(chk):
     chk.unit(rtu)
     c08.check_section_grammar(chk, rtu, rule='R04.5', only=('wasmReadImportSection', 'wasmReadImportSection#2', 'wasmReadFunctionSection'))
     chk.floor('R04.5', 6)
+    # R04.6: a call in unreachable code is still a call instruction of the binary: it emits nothing, but its immediates (function index;
+    # type and table index) are consumed, so that the instructions after it - live calls after the enclosing block ends - are decoded at
+    # the right place.  Decided on bytes (sa/bytedecode.py): call / call_indirect translated from a concrete code buffer with the real
+    # decoders in live and dead code, minimal and padded LEB128; in dead code the index bytes are 0x0B, which read as an opcode end the
+    # function early
+    from .. import bytedecode
+    det = []
+    bad, ncmp, nok = bytedecode.differential(chk.tier, only=('call', 'call_indirect'), details=det)
+    chk.require(len(det) == 4, 'byte-level run of call / call_indirect: %d encodings' % len(det))
+    for name, dead, raw, o_min, o_pad in det:
+        for enc, o in (('minimal', o_min), ('padded', o_pad)):
+            okc = o[0] == 1 and 'bytes left unread: 0' in o and (not dead or o[1] == '')
+            chk.expect(okc, 'R04.6', 'call-bytes:%s:%s:%s' % (name, 'dead' if dead else 'live', enc),
+                       '%s in %s code (%s encoding; minimal bytes %s followed by i32.const 77, end): result %r - expected the whole body '
+                       'translated (result 1, no byte left unread%s); the instruction\'s immediates were not consumed as immediates, so the '
+                       'following instructions - live calls after the block - are decoded from the wrong position'
+                       % (name, 'unreachable' if dead else 'reachable', enc, ' '.join('%02x' % b_ for b_ in raw), o,
+                          ', nothing emitted' if dead else ''), 'wasmCWriteFunctionCode:call-in-dead-code')
+    for b_ in bad[:4]:
+        chk.fail('R04.6', 'call-bytes-differ:' + b_.split(':')[0], b_, 'wasmCWriteFunctionCode:call-in-dead-code')
+    chk.floor('R04.6', 8)
     chk.floor('R04.1', 40)
     chk.floor('R04.2', 12)
     chk.floor('R04.3', 20)
